@@ -26,6 +26,14 @@ from pathlib import Path
 VERIF = Path(__file__).resolve().parents[1]
 LEAN = VERIF / "lean"
 REPO = Path(os.environ.get("MICI_REPO", "/repo"))
+if str(REPO) != "/repo" and os.environ.get("VERIF_PRIVATE_LEAN", "1") == "1":
+    # A scratch tree (tools/try_patch.sh, tools/eval_seed.sh) gets a private copy of the Lean project
+    # (sources + build output, ~150 MB, removed with the scratch tree): its regenerated tables and
+    # rebuilt modules never disturb, or wait for, checks of /repo itself.
+    _priv = REPO / ".verif-lean"
+    subprocess.run(["rsync", "-a", "--delete", "--exclude", ".generated.lock", str(LEAN) + "/", str(_priv) + "/"],
+                   check=True)
+    LEAN = _priv
 ALLOWED_AXIOMS = {"propext", "Classical.choice", "Quot.sound"}
 FORBIDDEN = re.compile(
     r"\bsorry\b|\badmit\b|^\s*axiom\s|native_decide|bv_decide|implemented_by|\bunsafe\s|maxHeartbeats\s+0\b"
